@@ -295,7 +295,10 @@ def main(tier, seed, replay=None):
 
     # ---- 2. plan
     garble = build_garble("verif")
-    seed_a, seed_b = rng.randbytes(8), rng.randbytes(8)
+    # seeds longer than 8 bytes that differ in their last byte only: a name must depend on the whole seed,
+    # in the top-level process (garble map / reverse) and in every toolexec child alike
+    seed_a = rng.randbytes(12)
+    seed_b = seed_a[:11] + bytes([seed_a[11] ^ 0x55])
     b64 = lambda s: base64.b64encode(s).decode().rstrip("=")
     SEEDED = ["-seed=" + b64(seed_a)]
     flagsets = {
